@@ -15,7 +15,7 @@ from typing import Any, Dict, List, Optional
 
 import torch
 
-from kaira.channels import AWGNChannel, BaseChannel, BinarySymmetricChannel, PerfectChannel
+from kaira.channels import AWGNChannel, BaseChannel, BinaryErasureChannel, BinarySymmetricChannel, PerfectChannel
 from kaira.constraints import IdentityConstraint
 from kaira.models.channel_code import ChannelCodeModel
 from kaira.modulations import BaseDemodulator, BaseModulator
@@ -51,6 +51,8 @@ class TapDemodulator(BaseDemodulator):
         self.inner = inner
         self.sym_in = None
         self.out = None
+        self.share_equal_rows = False
+        self.shared_rows = False
 
     @property
     def bits_per_symbol(self):
@@ -60,6 +62,11 @@ class TapDemodulator(BaseDemodulator):
         self.sym_in = y.detach().clone()
         out = self.inner(y, noise_var, *args, **kwargs) if noise_var is not None else self.inner(y, *args, **kwargs)
         self.out = out.detach().clone() if isinstance(out, torch.Tensor) else out
+        if self.share_equal_rows and isinstance(out, torch.Tensor) and out.dim() == 2 and out.shape[0] >= 2 and bool((out == out[0:1]).all()):
+            # a receiver that got the same word on every row may hand it on as one row broadcast over the batch
+            # (a stride-0 view): the same values in another memory layout
+            self.shared_rows = True
+            return out[0:1].clone().expand(out.shape[0], -1)
         return out
 
 
@@ -142,6 +149,15 @@ class LinkResult:
         self.over_rows = []
 
 
+def case_messages(case: dict) -> torch.Tensor:
+    """The messages of the judged call.  Very wide batches are carried as (seed, rows, bits) instead of a list."""
+    g = case.get("messages_gen")
+    if g:
+        gen = torch.Generator().manual_seed(int(g["seed"]))
+        return torch.randint(0, 2, (int(g["rows"]), int(g["bits"])), generator=gen).to(torch.float32)
+    return torch.tensor(case["messages"], dtype=torch.float32)
+
+
 def run_link(case: dict) -> LinkResult:
     """Assemble the real ChannelCodeModel for the case and push the messages through it."""
     res = LinkResult()
@@ -167,12 +183,15 @@ def run_link(case: dict) -> LinkResult:
     mod.eval()
     demod.eval()
     tmod, tdem = TapModulator(mod), TapDemodulator(demod)
+    tdem.share_equal_rows = bool(case.get("shared_rows"))
     res.tap_mod, res.tap_demod = tmod, tdem
     plan = case["plan"]
     n = enc.code_length
     kind = plan["kind"]
     if kind == "ideal":
-        channel = PerfectChannel()
+        # an ideal channel is the pass-through channel, or one of the library's channels configured to do nothing
+        impl = plan.get("impl", "perfect")
+        channel = {"perfect": PerfectChannel, "bsc0": lambda: BinarySymmetricChannel(0.0), "bec0": lambda: BinaryErasureChannel(0.0), "awgn0": lambda: AWGNChannel(avg_noise_power=0.0)}[impl]()
     elif kind in ("flips", "arbitrary", "displace"):
         channel = FaultChannel(plan, tmod, lambda: C.build_modem(case["mod"], case.get("via_registry", False))[0].eval(), n)
     elif kind == "bsc":
@@ -182,7 +201,7 @@ def run_link(case: dict) -> LinkResult:
     else:
         raise HarnessError(kind)
     model = ChannelCodeModel(encoder=enc, constraint=IdentityConstraint(), modulator=tmod, channel=channel, demodulator=tdem, decoder=dec)
-    msg = torch.tensor(case["messages"], dtype=MSG_DTYPES[case.get("msg_dtype", "float32")])
+    msg = case_messages(case).to(MSG_DTYPES[case.get("msg_dtype", "float32")])
     if case.get("one_d"):
         msg = msg.reshape(-1)
     if case.get("warmup_messages"):
@@ -194,7 +213,11 @@ def run_link(case: dict) -> LinkResult:
             try:
                 with torch.no_grad(), contextlib.redirect_stdout(io.StringIO()):
                     w = torch.tensor(wm, dtype=MSG_DTYPES[case.get("msg_dtype", "float32")])
-                    model(w, noise_var=case["noise_var"]) if case.get("soft") else model(w)
+                    if case.get("one_d") and w.shape[0] == 1:
+                        w = w.reshape(-1)
+                    wout = model(w, noise_var=case["noise_var"]) if case.get("soft") else model(w)
+                    if isinstance(wout, torch.Tensor) and wout.numel() and wout.data_ptr() != w.data_ptr():
+                        wout.mul_(0).add_(3)  # the caller owns what was returned and may overwrite it in place
             except Exception:
                 pass
         if isinstance(channel, FaultChannel):
